@@ -5,6 +5,7 @@ package main
 import (
 	"fmt"
 	"go/ast"
+	"go/token"
 	"go/types"
 	"strings"
 )
@@ -389,6 +390,61 @@ func runC17(c *Ctx, r *Report) {
 		}
 		return true
 	})
+	// every identifier toMultihash returns comes from a write performed by this very call
+	tmf := &Flow{P: p, Fn: tm, Entry: Facts{}}
+	tmf.Node = func(n ast.Node, f Facts) {
+		walkNoLit(n, func(nd ast.Node) bool {
+			if call, ok := nd.(*ast.CallExpr); ok && p.Callee(tm, call) == writeM {
+				f["written"] = true
+			}
+			return true
+		})
+	}
+	tmf.Run()
+	tmf.Exits(func(_ *cfgBlk, ret *ast.ReturnStmt, at Facts) {
+		if ret == nil || len(ret.Results) == 0 {
+			return
+		}
+		if se, ok := ast.Unparen(ret.Results[0]).(*ast.SelectorExpr); ok && se.Sel.Name == "Undef" {
+			return
+		}
+		okw := at["written"]
+		walkNoLit(ret, func(nd ast.Node) bool {
+			if call, ok := nd.(*ast.CallExpr); ok && p.Callee(tm, call) == writeM {
+				okw = true
+			}
+			return true
+		})
+		r.Check(okw, "R-C17.3", r.Key("R-C17.3", tm, "identifier-from-write", ""), ret.Pos(),
+			"every manifest identifier returned was produced by writing the current ToJSONLog() in this call",
+			"toMultihash can return an identifier without writing the current manifest (a remembered one): after a merge that leaves the clock unchanged the published manifest no longer loads to the log's state")
+	})
+	// nothing in first-party code removes blocks
+	r.Doc("R-C17.4", "no first-party code removes or unpins blocks (content-addressed blocks are shared by every replica and entry that names them)")
+	nrm := 0
+	for _, fn := range p.Fns {
+		if strings.HasSuffix(fn.Pkg.PkgPath, "/test") || strings.HasSuffix(fn.Pkg.PkgPath, "/example") {
+			continue
+		}
+		walkNoLit(fn.Body, func(n ast.Node) bool {
+			call, ok := n.(*ast.CallExpr)
+			if !ok {
+				return true
+			}
+			se, ok := ast.Unparen(call.Fun).(*ast.SelectorExpr)
+			if !ok || (se.Sel.Name != "Remove" && se.Sel.Name != "RemoveMany" && se.Sel.Name != "Rm" && se.Sel.Name != "DeleteBlock") {
+				return true
+			}
+			if cf := p.Callee(fn, call); cf != nil && cf.Pkg() != nil && (strings.Contains(cf.Pkg().Path(), "coreiface") || strings.Contains(cf.Pkg().Path(), "go-ipld-format") || strings.Contains(cf.Pkg().Path(), "blockstore") || strings.Contains(cf.Pkg().Path(), "blockservice")) {
+				nrm++
+				r.Violate("R-C17.4", r.Key("R-C17.4", fn, "block-removal", se.Sel.Name), call.Pos(), "a block is removed from the store: blocks are content-addressed and shared, so another replica's (byte-identical) entry that later entries reference disappears and the store is no longer causally closed")
+			}
+			return true
+		})
+	}
+	if nrm == 0 {
+		r.Hold("R-C17.4", r.Key("R-C17.4", nil, "no-block-removal", ""), token.NoPos, true, "no call of a block-removing API in first-party code")
+	}
 	r.Check(okPub, "R-C17.3", r.Key("R-C17.3", tm, "manifest", ""), tm.Body.Pos(), "the manifest written is exactly ToJSONLog() of the log being published", "toMultihash does not write ToJSONLog() of its own log")
 }
 
